@@ -347,6 +347,7 @@ type ScenCfg struct {
 	NoRest     bool // do not emit plain tokens that would become remaining arguments
 	MaxOccPer  int
 	PosTextFn  func(r *Rand, a *PosArg) string
+	SkipReq    bool // never mention required options spontaneously (the caller supplies a chosen subset)
 	PUnknown   int  // % of steps that emit an unknown option token (only under IgnoreUnknown: passed through)
 	Focus      *Opt // an option the scenario should mention FocusN times
 	FocusN     int
@@ -465,6 +466,9 @@ func (w *walker) addCluster() bool {
 		if o.Short == 0 || w.scope.Short[o.Short] != o {
 			continue
 		}
+		if w.cfg.SkipReq && o.Required {
+			continue
+		}
 		if o.T.IsFlag() {
 			fl = append(fl, o)
 		} else if !o.Optional {
@@ -556,6 +560,9 @@ func GenScenario(r *Rand, d *Decl, cfg *ScenCfg) *Scenario {
 				continue
 			}
 			o := opts[r.Intn(len(opts))]
+			if cfg.SkipReq && o.Required {
+				continue
+			}
 			if f := cfg.Focus; f != nil && w.occCnt[f] < cfg.FocusN && r.Bool() {
 				for _, x := range opts {
 					if x == f {
@@ -906,4 +913,141 @@ func flipCase(s string) string {
 		return ""
 	}
 	return string(bs)
+}
+
+// ---------------------------------------------------------------------------
+// Denote: the expected outcome of an item list, computed from the declaration model only
+// (used after items have been edited: faults inserted, occurrences moved or added).
+// ---------------------------------------------------------------------------
+
+type Denotation struct {
+	Exp      *Expect
+	Final    *Cmd
+	Passed   bool
+	Unknowns int
+}
+
+func Denote(d *Decl, items []*Item) *Denotation {
+	w := &walker{d: d, exp: newExpect(d), occCnt: map[*Opt]int{}}
+	w.enter(d.Root)
+	pano := d.Options&flags.PassAfterNonOption != 0
+	for _, it := range items {
+		switch it.Kind {
+		case IOcc:
+			t := it.Text
+			w.exp.occur(it.Opt, &t)
+		case IFlag:
+			w.exp.occur(it.Opt, nil)
+		case IOptNoArg:
+			w.exp.occurOptional(it.Opt)
+		case ICluster:
+			for _, f := range it.Flags {
+				w.exp.occur(f, nil)
+			}
+			if it.Opt != nil {
+				t := it.Text
+				w.exp.occur(it.Opt, &t)
+			}
+		case IPos:
+			w.bindPlain(it.Tok)
+			if pano {
+				w.passed = true
+			}
+		case IRaw:
+			w.bindPlain(it.Tok)
+		case ITerm:
+			w.passed = true
+		case ICmd:
+			w.enter(it.Cmd)
+		case IFault:
+			// only pass-through faults take part in a denotation
+			for _, t := range it.Toks {
+				w.bindPlain(t)
+			}
+			w.unknowns++
+		}
+	}
+	w.exp.Chain = w.cur.Chain()
+	return &Denotation{Exp: w.exp, Final: w.cur, Passed: w.passed, Unknowns: w.unknowns}
+}
+
+// Redenote replaces the scenario's expectation by the denotation of its (edited) items.
+func (s *Scenario) Redenote() {
+	dn := Denote(s.D, s.Items)
+	s.Exp, s.Final, s.Unknowns = dn.Exp, dn.Final, dn.Unknowns
+}
+
+// passIndex returns the index of the first item from which everything is passed through verbatim.
+func passIndex(d *Decl, items []*Item) int {
+	pano := d.Options&flags.PassAfterNonOption != 0
+	for i, it := range items {
+		if it.Kind == ITerm || it.Kind == IRaw {
+			return i
+		}
+		if it.Kind == IPos && pano {
+			return i
+		}
+	}
+	return len(items)
+}
+
+// cmdIndex returns the index just after the command word that activates cm (0 for the root), or -1.
+func cmdIndex(items []*Item, cm *Cmd) int {
+	if cm.Parent == nil {
+		return 0
+	}
+	for i, it := range items {
+		if it.Kind == ICmd && it.Cmd == cm {
+			return i + 1
+		}
+	}
+	return -1
+}
+
+// SupplyOption inserts one occurrence of option o (declared by a command of the active chain) directly
+// after the command word that brings it into scope, in a random admissible spelling.
+func (s *Scenario) SupplyOption(r *Rand, o *Opt, allowCluster bool) bool {
+	at := cmdIndex(s.Items, o.Cmd)
+	if at < 0 || at > passIndex(s.D, s.Items) {
+		return false
+	}
+	scope := s.D.ScopeOf(o.Cmd)
+	var it *Item
+	if o.T.IsFlag() {
+		shortOK := o.Short != 0 && scope.Short[o.Short] == o
+		longOK := o.Long != "" && scope.Long[s.D.FullLong(o)] == o
+		if !shortOK && !longOK {
+			return false
+		}
+		it = &Item{Kind: IFlag, Opt: o, Long: longOK && (!shortOK || r.Bool())}
+		if allowCluster && shortOK && r.Chance(1, 3) {
+			// inside a cluster with another addressable flag
+			for _, f := range scope.Addressable(s.D) {
+				if f != o && f.T.IsFlag() && f.Short != 0 && scope.Short[f.Short] == f && !f.Required {
+					it = &Item{Kind: ICluster, Flags: []*Opt{f, o}}
+					if r.Bool() {
+						it.Flags = []*Opt{o, f}
+					}
+					break
+				}
+			}
+		}
+	} else {
+		txt := GenValueText(r, o)
+		it = &Item{Kind: IOcc, Opt: o, Text: txt}
+		if !o.NoUnquote && strings.HasPrefix(txt, "\"") {
+			it.Quoted = true
+		}
+		sps := AdmissibleSpellings(s.D, scope, o, it.argText())
+		if len(sps) == 0 {
+			return false
+		}
+		it.Sp = sps[r.Intn(len(sps))]
+	}
+	var items []*Item
+	items = append(items, s.Items[:at]...)
+	items = append(items, it)
+	items = append(items, s.Items[at:]...)
+	s.Items = items
+	return true
 }
